@@ -26,9 +26,12 @@ def decide(res, solver, on_sat):
 # ------------------------------------------------------------------------------------------ FFSynchronizer
 def ff_job(job):
     width, stages, init, reset_less = job["width"], job["stages"], job["init"], job["reset_less"]
-    text = f"FFSynchronizer(width={width}, stages={stages}, init={init}, reset_less={reset_less})"
+    signed_, ow = job.get("signed", False), job.get("owidth", width)
+    text = f"FFSynchronizer(width={width}, stages={stages}, init={init}, reset_less={reset_less})" + (f" signed input, output signed({ow})" if signed_ else "")
     base = {"id": job["id"], "program": text, "nontrivial": True}
-    i, o = Signal(width, name="i"), Signal(width, name="o")
+    from amaranth.hdl import Shape
+    i, o = Signal(Shape(width, signed_), name="i"), Signal(Shape(ow, signed_), name="o")
+    ext = (lambda t: z3.SignExt(ow - width, t) if signed_ else z3.ZeroExt(ow - width, t)) if ow > width else (lambda t: t)
     top = Module()
     cd = ClockDomain("sync")
     other = ClockDomain("other")
@@ -52,14 +55,14 @@ def ff_job(job):
     for k in range(stages):
         w = prev
         if not reset_less:
-            w = z3.If(rst == 1, z3.BitVecVal(init, width), w)
+            w = z3.If(rst == 1, z3.BitVecVal(init & ((1 << width) - 1), width), w)
         want[stages_n[k]] = w
         prev = st[stages_n[k]]
     r = dict(base, kind="shift-register law", assertion="at an output-domain edge stage0 takes i and stage k takes stage k-1 (init under reset unless reset_less); "
              "o is the last stage; an edge of another domain changes nothing", symbolic="all stages, i, reset")
     s = z3.Solver()
     nx2 = ts.step(st, ins, 1, ["o", "x"])
-    conds = [nxt[n] != want[n] for n in stages_n] + [nx2[n] != st[n] for n in stages_n] + [ts.observe("o", st, ins) != st[stages_n[-1]]]
+    conds = [nxt[n] != want[n] for n in stages_n] + [nx2[n] != st[n] for n in stages_n] + [ts.observe("o", st, ins) != ext(st[stages_n[-1]])]
     s.add(z3.Or(*conds))
     out.append(decide(r, s, lambda m: ff_cex(r, job, m)))
     # bounded latency from the initial state: o after edge t equals i sampled at edge t - stages + 1 ... (reset de-asserted)
@@ -72,7 +75,7 @@ def ff_job(job):
         if "x_rst" in ins:
             ins["x_rst"] = z3.BitVecVal(0, 1)
         seq.append(ins["x_i"])
-        conds.append(ts.observe("o", st, ins) != (seq[t - stages] if t - stages >= 0 else z3.BitVecVal(init, width)))
+        conds.append(ts.observe("o", st, ins) != ext(seq[t - stages] if t - stages >= 0 else z3.BitVecVal(init & ((1 << width) - 1), width)))
         st = ts.step(st, ins, 0, ["o", "x"])
     r = dict(base, kind="latency", assertion=f"from the initial state: before edge t the output shows the input sampled at edge t-{stages} "
              f"(the initial value for t < {stages}), for t < {K}", symbolic=f"input at each of {K} edges")
@@ -86,9 +89,13 @@ def ff_cex(res, job, model, seq=None):
     """Replay on the real simulator: drive a sequence and compare with the delayed input."""
     from amaranth.sim import Simulator, Period
     width, stages, init, reset_less = job["width"], job["stages"], job["init"], job["reset_less"]
+    signed_, ow = job.get("signed", False), job.get("owidth", width)
+    from amaranth.hdl import Shape
     seq = seq or [(k * 5 + 3) % (1 << width) for k in range(stages + 3)]
+    if signed_:
+        seq = [v - (1 << width) if v >= 1 << (width - 1) else v for v in seq]
     with symsim.real_states():
-        i, o = Signal(width), Signal(width)
+        i, o = Signal(Shape(width, signed_)), Signal(Shape(ow, signed_))
         m = Module()
         m.submodules.ffs = FFSynchronizer(i, o, init=init, reset_less=reset_less, stages=stages)
         sim = Simulator(m)
@@ -102,7 +109,7 @@ def ff_cex(res, job, model, seq=None):
                 await ctx.tick()
         sim.add_testbench(tb)
         sim.run()
-    want = [(seq[t - stages] if t >= stages else init & ((1 << width) - 1)) for t in range(len(seq))]
+    want = [(seq[t - stages] if t >= stages else (init if signed_ else init & ((1 << width) - 1))) for t in range(len(seq))]
     if got != want:
         return dict(res, status=VIOLATION, detail=f"{res['program']}: input {seq} gives output {got}, expected {want}",
                     signature={"kind": res["kind"], "primitive": "FFSynchronizer"}, replay={"what": "ff", "job": job, "seq": seq})
@@ -376,6 +383,9 @@ def main(tier, seed):
             for rl in (True, False):
                 init = (5 * st + w) % (1 << w)
                 jobs.append({"id": f"ff-w{w}-s{st}-{'rl' if rl else 'rst'}", "what": "ff", "width": w, "stages": st, "init": init, "reset_less": rl})
+    for (w, st, init) in ((3, 2, -3), (2, 3, 1), (4, 2, -8)):
+        jobs.append({"id": f"ff-signed-w{w}-s{st}", "what": "ff", "width": w, "stages": st, "init": init, "reset_less": st == 3, "signed": True, "owidth": w + 2})
+    jobs.append({"id": "ff-wide-w3-s2", "what": "ff", "width": 3, "stages": 2, "init": 5, "reset_less": True, "signed": False, "owidth": 5})
     for st in (2, 3) if tier == "quick" else (2, 3, 4):
         for edge in ("pos", "neg"):
             jobs.append({"id": f"async-s{st}-{edge}", "what": "async", "kind": "AsyncFFSynchronizer", "stages": st, "edge": edge})
